@@ -58,6 +58,28 @@ def valid_bases(name, mod, n, rnd, synth):
                 break
             if len(out) >= n + synth * 3:
                 break
+    # deterministic neighbours: the characters the module's own source mentions (type letters, symbols) at every position, and
+    # 0 / 9 at the first positions (leading zeros, range ends), each kept when it is -- possibly after searching the last
+    # character -- a valid number in canonical form
+    from vlib import inputs
+    alpha = inputs.module_alphabet(mod)[:24]
+    for b in bases[:2]:
+        if not b.isascii():
+            continue
+        cands = [b[:i] + ch + b[i + 1:] for i in range(len(b)) for ch in alpha if ch != b[i]]
+        cands += [b[:i] + ch + b[i + 1:] for i in range(min(4, len(b) - 1)) for ch in '09' if ch != b[i]]
+        for t in cands:
+            for u in [t] + [t[:-1] + d for d in '0123456789X' if d != t[-1]]:
+                if u in seen:
+                    continue
+                try:
+                    ok = mod.is_valid(u) is True and mod.validate(u) == u
+                except Exception:
+                    ok = False
+                if ok:
+                    seen.add(u)
+                    out.append(u)
+                    break
     return out
 
 
